@@ -10,4 +10,9 @@ CLAIMED = {
   text="For every ecosystem the documented comparator/separator table is instantiated with every bound of a stated sub-universe and evaluated on every probe; the expected membership is computed from the implementation's own Compare, so the biconditional is decided for every enumerated case.",
   note="Bounds are a stride sub-universe of C01's universe plus one bound per distinct letter; bounds starting with comparator characters or containing separators are out of scope as stated. The syntax table is written from the documentation (DESIGN.md Appendix B).",
   ref="DESIGN.md 4 (C02)"),
+ "C03": dict(
+  technique="bounded-exhaustive enumeration of integer tuples over a boundary set for every documented arity (all ordered pairs) and of every (tuple, marker spelling) pair, on the real parser and Compare against the integer-tuple order",
+  text="Every tuple of the boundary set must parse and every ordered pair of same-arity tuples must compare as the integer tuples; every accepted pre/post marker spelling must sort strictly below/above its unmarked tuple. The space is finite and enumerated completely.",
+  note="The quantifier's 'random values' are replaced by the deterministic boundary set {0,1,2,9,10,11,99,100,999,1000,65535,2^31-1}; marker direction tables come from each ecosystem's documentation; composer patch/pl, mattermost -esr, alpm pkgrel and build metadata are not claimed.",
+  ref="DESIGN.md 4 (C03)"),
 }
